@@ -13,6 +13,7 @@ EXTENDS Integers, Sequences, FiniteSets, TLC
 CONSTANTS N,          \* number of time points 0..N-1 (0 is the origin)
           Atoms,      \* set of records [id, from, to, d] : 'to - from <= d'
           MaxLevel,
+          PropGuardBug,\* TRUE: the pair (j, i) of the set_i x set_j loop is only looked at when j already reaches i (a seeded mistake)
           SavePredBug,\* TRUE reproduces set_pred saving 'from' instead of the old predecessor (pinned-tree behaviour)
           Scale       \* 1: integer difference logic (the negation of 'to - from <= d' is 'from - to <= -d - 1');
                       \* K > 1: real difference logic with the infinitesimal as 1/K (the negation is 'from - to <= -d - eps')
@@ -22,14 +23,15 @@ P == 0..(N - 1)
 NoPred == 99
 AtomById(i) == CHOOSE a \in Atoms : a.id = i
 
-VARIABLES dists, preds, dconstr, val, layers, hist, lastOp
-vars == <<dists, preds, dconstr, val, layers, hist, lastOp>>
+VARIABLES dists, preds, dconstr, val, layers, hist, lastOp,
+          pv      \* what the theory itself told the sat core: the value of every atom the distances decide (record / enqueue)
+vars == <<dists, preds, dconstr, val, layers, hist, lastOp, pv>>
 
 InitDists == [p \in P \X P |-> IF p[1] = p[2] THEN 0 ELSE Inf]
 InitPreds == [p \in P \X P |-> IF p[1] = p[2] THEN NoPred ELSE p[1]]
 Init ==
   /\ dists = InitDists /\ preds = InitPreds /\ dconstr = [p \in P \X P |-> 0]
-  /\ val = [a \in Atoms |-> "U"] /\ layers = <<>> /\ hist = <<>> /\ lastOp = <<"init">>
+  /\ val = [a \in Atoms |-> "U"] /\ layers = <<>> /\ hist = <<>> /\ lastOp = <<"init">> /\ pv = [a \in Atoms |-> "U"]
 
 \* ---- the asserted constraints and their exact closure (reference) ---------------------------------------------------
 EdgeOf(a, v) == IF v = "T" THEN <<a.from, a.to, a.d * Scale>> ELSE <<a.to, a.from, -(a.d * Scale) - 1>>
@@ -65,22 +67,45 @@ LoopU(acc, u, from, to, w) ==
            S2 == IF c1 THEN SetPred(SetDist(S1, u, to, S1.d[<<u, from>>] + w), u, to, from) ELSE S1
            c2 == S2.d[<<to, u>>] # Inf /\ S2.d[<<to, u>>] < S2.d[<<from, u>>] - w
            S3 == IF c2 THEN SetPred(SetDist(S2, from, u, S2.d[<<to, u>>] + w), from, u, S2.p[<<to, u>>]) ELSE S2
-       IN LoopU([S |-> S3, si |-> IF c1 THEN Append(acc.si, u) ELSE acc.si, sj |-> IF c2 THEN Append(acc.sj, u) ELSE acc.sj],
+       IN LoopU([S |-> S3, si |-> IF c1 THEN Append(acc.si, u) ELSE acc.si, sj |-> IF c2 THEN Append(acc.sj, u) ELSE acc.sj,
+                 upd |-> acc.upd \cup (IF c1 THEN {<<u, to>>, <<to, u>>} ELSE {}) \cup (IF c2 THEN {<<from, u>>, <<u, from>>} ELSE {})],
                 u + 1, from, to, w)
 \* the nested loop over set_i x set_j
-RECURSIVE LoopIJ(_, _, _, _, _, _)
-LoopIJ(S, si, sj, a, b, to) ==
-  IF a > Len(si) THEN S
-  ELSE IF b > Len(sj) THEN LoopIJ(S, si, sj, a + 1, 1, to)
+RECURSIVE LoopIJ(_, _, _, _, _, _, _)
+LoopIJ(S, si, sj, a, b, to, upd) ==
+  IF a > Len(si) THEN [S |-> S, upd |-> upd]
+  ELSE IF b > Len(sj) THEN LoopIJ(S, si, sj, a + 1, 1, to, upd)
   ELSE LET i == si[a]
            j == sj[b]
            better == i # j /\ S.d[<<i, to>>] + S.d[<<to, j>>] < S.d[<<i, j>>]
            S1 == IF better THEN SetPred(SetDist(S, i, j, S.d[<<i, to>>] + S.d[<<to, j>>]), i, j, S.p[<<to, j>>]) ELSE S
-       IN LoopIJ(S1, si, sj, a, b + 1, to)
+           u1 == IF better THEN upd \cup {<<i, j>>} \cup (IF PropGuardBug /\ S.d[<<j, i>>] >= Inf THEN {} ELSE {<<j, i>>}) ELSE upd
+       IN LoopIJ(S1, si, sj, a, b + 1, to, u1)
+\* returns the new state and c_updates: the pairs whose distance changed, in both directions (the constraints registered
+\* on them are looked at afterwards)
 Propagate(S, from, to, w) ==
   LET S0 == SetPred(SetDist(S, from, to, w), from, to, from)
-      r == LoopU([S |-> S0, si |-> <<>>, sj |-> <<>>], 0, from, to, w)
-  IN LoopIJ(r.S, r.si, r.sj, 1, 1, to)
+      r == LoopU([S |-> S0, si |-> <<>>, sj |-> <<>>, upd |-> {<<from, to>>, <<to, from>>}], 0, from, to, w)
+  IN LoopIJ(r.S, r.si, r.sj, 1, 1, to, r.upd)
+\* the last loop of propagate: every undecided constraint registered on an updated pair that the distances now decide is
+\* told to the sat core (record): false when the opposite distance contradicts it, true when the distance makes it redundant
+Decided(D, b) == IF D[<<b.to, b.from>>] < -(b.d * Scale) THEN "F" ELSE IF D[<<b.from, b.to>>] <= b.d * Scale THEN "T" ELSE "U"
+Newly(D, upd, vl, p) == {b \in Atoms : vl[b] = "U" /\ p[b] = "U" /\ <<b.from, b.to>> \in upd /\ Decided(D, b) # "U"}
+TheoryProp(D, upd, vl, p) == [b \in Atoms |-> IF b \in Newly(D, upd, vl, p) THEN Decided(D, b) ELSE p[b]]
+\* the reason recorded with each of them: the literal itself and the negation of what the constraints enforcing the path
+\* (walked back over the predecessors) currently are; literals are signed atom ids
+RECURSIVE PathLits(_, _, _, _, _, _)
+PathLits(S, vl, root, at, stop, fuel) ==
+  IF at = stop \/ fuel = 0 THEN {}
+  ELSE LET q == S.p[<<root, at>>]
+       IN IF q \notin P THEN {}
+          ELSE LET id == S.c[<<q, at>>]
+                   l == IF id = 0 THEN {} ELSE IF vl[AtomById(id)] = "T" THEN {-id} ELSE IF vl[AtomById(id)] = "F" THEN {id} ELSE {}
+               IN l \cup PathLits(S, vl, root, q, stop, fuel - 1)
+Lemma(S, vl, b) ==
+  IF Decided(S.d, b) = "F" THEN {-b.id} \cup PathLits(S, vl, b.to, b.from, b.to, N)
+  ELSE {b.id} \cup PathLits(S, vl, b.from, b.to, b.from, N)
+Lemmas(S, upd, vl, p) == {Lemma(S, vl, b) : b \in Newly(S.d, upd, vl, p)}
 
 NoLayer == [on |-> FALSE, od |-> << >>, op |-> << >>, oc |-> << >>]
 Cur == [d |-> dists, p |-> preds, c |-> dconstr, top |-> IF layers = <<>> THEN NoLayer ELSE layers[Len(layers)]]
@@ -99,19 +124,23 @@ AssertLit(a, v) ==
      IN IF dists[<<t, f>>] < -w
         THEN \* conflict: nothing is changed (the sat core backtracks); recorded for the ConflictIffNegCycle check
              /\ lastOp' = <<"conflict", a.id, v>>
-             /\ UNCHANGED <<dists, preds, dconstr, val, layers, hist>>
+             /\ UNCHANGED <<dists, preds, dconstr, val, layers, hist, pv>>
         ELSE /\ val' = [val EXCEPT ![a] = v]
-             /\ lastOp' = <<"assert", a.id, v>>
              /\ hist' = hist
              /\ IF dists[<<f, t>>] > w
-                THEN Commit(Propagate(StoreConstr(Cur, f, t, a.id), f, t, w))
-                ELSE UNCHANGED <<dists, preds, dconstr, layers>>
+                THEN LET r == Propagate(StoreConstr(Cur, f, t, a.id), f, t, w)
+                     IN Commit(r.S) /\ pv' = TheoryProp(r.S.d, r.upd, val', pv)
+                ELSE UNCHANGED <<dists, preds, dconstr, layers, pv>>
+             /\ lastOp' = <<"assert", a.id, v,
+                            IF dists[<<f, t>>] > w
+                            THEN LET r == Propagate(StoreConstr(Cur, f, t, a.id), f, t, w) IN Lemmas(r.S, r.upd, val', pv)
+                            ELSE {}>>
 Push ==
   /\ Len(layers) < MaxLevel
   /\ layers' = Append(layers, [on |-> TRUE, od |-> << >>, op |-> << >>, oc |-> << >>])
-  /\ hist' = Append(hist, <<dists, preds, dconstr, val>>)
+  /\ hist' = Append(hist, <<dists, preds, dconstr, val, pv>>)
   /\ lastOp' = <<"push">>
-  /\ UNCHANGED <<dists, preds, dconstr, val>>
+  /\ UNCHANGED <<dists, preds, dconstr, val, pv>>
 Pop ==
   /\ layers # <<>>
   /\ LET L == layers[Len(layers)]
@@ -119,6 +148,7 @@ Pop ==
         /\ preds' = [p \in P \X P |-> IF p \in DOMAIN L.op THEN L.op[p] ELSE preds[p]]
         /\ dconstr' = [p \in P \X P |-> IF p \in DOMAIN L.oc THEN L.oc[p] ELSE dconstr[p]]
   /\ val' = hist[Len(hist)][4]          \* the sat core unassigns the literals of the level
+  /\ pv' = hist[Len(hist)][5]
   /\ layers' = SubSeq(layers, 1, Len(layers) - 1)
   /\ hist' = SubSeq(hist, 1, Len(hist) - 1)
   /\ lastOp' = <<"pop", hist[Len(hist)]>>
@@ -133,6 +163,13 @@ DistExact == dists = FW(Edges(val))
 ConflictIffNegCycle ==
   /\ lastOp[1] = "conflict" => NegCycle(Edges(val) \cup {EdgeOf(AtomById(lastOp[2]), lastOp[3])})
   /\ lastOp[1] = "assert" => ~NegCycle(Edges(val))
+\* C10: every undecided constraint that the distances decide has been told to the sat core with the right value, and
+\* nothing else has (the value of an atom is what was asserted, else what the theory propagated)
+Eff(a) == IF val[a] # "U" THEN val[a] ELSE pv[a]
+PropagationComplete == lastOp[1] # "conflict" => \A b \in Atoms : val[b] = "U" => pv[b] = Decided(dists, b)
+\* C07 / C10: every reason is a valid clause of the theory: the atoms with the values that falsify it are inconsistent
+LitEdge(l) == LET a == AtomById(IF l < 0 THEN -l ELSE l) IN EdgeOf(a, IF l < 0 THEN "T" ELSE "F")     \* the edge of the NEGATED literal
+LemmasValid == lastOp[1] = "assert" => \A c \in lastOp[4] : NegCycle({LitEdge(l) : l \in c})
 \* C08: pop restores distances, predecessors and enforcing constraints of the matching push exactly
 PopRestoresDists == lastOp[1] = "pop" => dists = lastOp[2][1]
 PopRestoresConstrs == lastOp[1] = "pop" => dconstr = lastOp[2][3]
